@@ -38,7 +38,10 @@ Advance(T, H, j, a) ==
       \* seed bound: constant until every convention has started its recursion (2p), then contracting
       pp == IF d = "lin" THEN H.decp ELSE p
       dec1 == IF j = 1 THEN Spread(T, H) ELSE IF j <= 2 * pp THEN a.dec ELSE Decay(a.dec, w[1], w[2])
-      t11 == IF a.t1 = 0 /\ dec1 <= 1 THEN j ELSE a.t1
+      \* integer Decay stalls once the bound is below m = wd/wn units; from there 5m more steps shrink what is left
+      \* (at most m units, factor (1 - 1/m) per step, e^-5 m < 1 for m <= 60) below one unit
+      m == w[2] \div w[1]
+      t11 == IF a.t1 = 0 /\ dec1 <= Max2(m, 1) THEN j + 5 * m ELSE a.t1
   IN CASE d \in {"ema", "wilders", "atr"} ->
             [a EXCEPT !.e = IF j = 1 THEN SmIn(T, H, 1) ELSE Smooth(a.e, SmIn(T, H, j), w[1], w[2]),
                       !.dec = dec1, !.t1 = t11]
@@ -60,13 +63,17 @@ Advance(T, H, j, a) ==
                                    !.dec = dec1, !.t1 = t11]
        [] OTHER -> a
 
+\* positions at which a window definition has no value yet because fewer candles exist than its window needs (hdr.q = 1:
+\* the logged output must not carry a number there; zero denominators are a different matter and never judged)
+WarmUp(d, p, j) == IF d \in {"mom", "roc", "rocp", "rocr", "rocr100"} THEN j <= p ELSE j < p
 \* ---------------------------------------------------------------- judging position j (a = state AFTER position j)
 Tok(s, j) == s[j]
 Judge(T, H, j, a) ==
   LET d == H.def  p == H.p  k == H.k  V == T.out[j] IN
   CASE d \in KnownWindow ->
          LET w == Window(T, d, p, H.src, j) IN
-         IF ~w.def THEN "ok" ELSE IF ~Fin(V) THEN "value:not-finite"
+         IF ~w.def THEN (IF H.q = 1 /\ Fin(V) /\ WarmUp(d, p, j) THEN "value:before-the-window-is-complete" ELSE "ok")
+         ELSE IF ~Fin(V) THEN "value:not-finite"
          ELSE IF NearRat(V, w.num, w.den, k + w.sh) THEN "ok" ELSE "value:" \o ToString(V) \o "/" \o ToString(SDiv(w.num, w.den, k + w.sh))
     [] d = "stddev" ->
          LET w == Window(T, "var", p, H.src, j) IN
@@ -78,7 +85,8 @@ Judge(T, H, j, a) ==
          IF ~StochDefined(T, j, p, H.q) THEN "ok" ELSE IF ~Fin(V) THEN "value:not-finite"
          ELSE IF Abs(V * 10 * H.q - StochSum6(T, j, p, H.q)) <= 7 * H.q THEN "ok" ELSE "value"
     [] d \in {"aroon_up", "aroon_down"} ->
-         IF j < p + 1 THEN "ok" ELSE IF ~Fin(V) THEN "value:not-finite"
+         IF j < p + 1 THEN (IF H.q = 1 /\ Fin(V) THEN "value:before-the-window-is-complete" ELSE "ok")
+         ELSE IF ~Fin(V) THEN "value:not-finite"
          ELSE IF AroonOK(T, V, j, p, k, d = "aroon_up") THEN "ok" ELSE "value"
     [] d = "obv" ->
          IF j < 2 THEN "ok" ELSE IF ~Fin(V) \/ ~Fin(T.out[j - 1]) THEN "value:not-finite"
